@@ -78,6 +78,8 @@ class C06(C.PipelineCheck):
         self.oracle_prog.load([H.os.path.join(reg, 'serde_derive-%s' % ver, 'src', 'internals', 'case.rs')], None, 'serde_case')
 
     def scenarios(self, tier):
+        for j in self.container_scenarios(tier):
+            yield j
         q = tier != 'thorough'
         lens = (1, 3) if q else (1, 2, 3, 4, 5, 6)
         slens = (0, 1, 2) if q else (0, 1, 2, 3, 4)
@@ -98,6 +100,17 @@ class C06(C.PipelineCheck):
                     vl, vs = (1, 2, 4), tuple(x for x in vs if x <= 2)
                 yield ('variant/%s/%s' % (ra, pat[0]), dict(kind='variant', ra=ra, pat=pat, lens=vl, slens=vs))
 
+    def container_scenarios(self, tier):
+        q = tier != 'thorough'
+        for ra in RULES:
+            if ra is None:
+                continue
+            for cs in (1, 2, 3, 4, 5):
+                if q and ra not in ('camelCase', 'snake_case', 'SCREAMING-KEBAB-CASE') and cs not in (1, 5):
+                    continue
+                yield ('field/%s/none@container%d' % (ra, cs), dict(kind='field', ra=ra, pat=FIELD_PATTERNS[0], lens=(3,), slens=(0,), cstyle=cs))
+                yield ('variant/%s/none@container%d' % (ra, cs), dict(kind='variant', ra=ra, pat=VARIANT_PATTERNS[0], lens=(4,), slens=(0,), cstyle=cs))
+
     def mutant_scenarios(self, tier, name):
         for j in self.scenarios('quick'):
             if j[0] in ('field/camelCase/none', 'field/None/rename', 'field/kebab-case/skip', 'variant/UPPERCASE/rename', 'field/camelCase/rename,default'):
@@ -105,6 +118,11 @@ class C06(C.PipelineCheck):
 
     def template(self, p):
         ra = '#[serde(rename_all = "%s")]\n' % p['ra'] if p['ra'] else ''
+        if p['ra'] and p.get('cstyle'):
+            # the container rule next to / after other container attributes, in one #[serde(..)] or several
+            ra = ['#[serde(deny_unknown_fields)]\n#[serde(rename_all = "%s")]\n', '#[serde(rename_all = "%s", deny_unknown_fields)]\n',
+                  '#[serde(deny_unknown_fields, rename_all = "%s")]\n', '#[serde(rename_all = "%s")]\n#[serde(deny_unknown_fields)]\n',
+                  '#[serde(rename = "Other")]\n#[serde(rename_all = "%s")]\n'][p['cstyle'] - 1] % p['ra']
         attrs = p['pat'][1]
         if p['kind'] == 'field':
             return (C.HEADER + '#[derive(Serialize, Deserialize)]\n' + ra + 'pub struct Foo {\n    ' + attrs + '\n    pub HOLE_f: Option<i32>,\n    pub keep: bool,\n}\n' +
